@@ -183,3 +183,25 @@ def lambda_signatures():
                                 kd = [K(i) if m else None for i, m in enumerate(mask)]
                                 yield ast.Lambda(args=args(posonly=po, a=ar, vararg=va, kwonly=ko, kw_defaults=kd, kwarg=kw,
                                                            defaults=[K(10 + i) for i in range(nd)]), body=N("x"))
+
+
+LOW_PREC = ("IfExp", "Lambda0", "Lambda:defaults", "NamedExpr", "BoolOp:And", "BoolOp:Or", "Compare:Lt", "Compare:In", "Compare:chain",
+            "UnaryOp:Not", "UnaryOp:USub", "BinOp:Pow", "BinOp:Add", "BinOp:BitOr", "Yield", "YieldFrom", "Await", "GeneratorExp",
+            "Tuple2", "Tuple:star", "JoinedStr:field", "Subscript:slice", "Call:kw", "Attribute", "Constant:int", "Constant:float")
+
+
+def depth3_sensitive():
+    """every (parent, slot) x (child, slot) x grandchild with child and grandchild drawn from the precedence-sensitive kinds:
+    the triples in which a misplaced pair of parentheses can hide"""
+    low = [t for t in TEMPLATES if t[0] in LOW_PREC]
+    for p in TEMPLATES:
+        for slot in range(p[1]):
+            for c in low:
+                for cslot in range(c[1]):
+                    for g in low:
+                        gk = build(g, [leaf(j) for j in range(g[1])])
+                        ck = [leaf(4 + j) for j in range(c[1])]
+                        ck[cslot] = gk
+                        kids = [leaf(i) for i in range(p[1])]
+                        kids[slot] = build(c, ck)
+                        yield (p[0], slot, c[0], cslot, g[0]), build(p, kids)
